@@ -34,6 +34,16 @@ func noBudgetEdges(fn *ssa.Function) map[core.Edge]bool {
 	})
 }
 
+// isVisitCallback: the call invokes the callback a walk was given for its visits (not one of the other functions a
+// configuration carries, such as the prototype chooser).
+func isVisitCallback(root *ssa.Function, ci ssa.CallInstruction) bool {
+	switch callbackType(root, ci) {
+	case "VisitFn", "AdvVisitFn", "TransformFn":
+		return true
+	}
+	return false
+}
+
 func isSpendOf(field string) func(ssa.Instruction) bool {
 	return func(in ssa.Instruction) bool { _, ok := isSpend(in, field); return ok }
 }
@@ -109,6 +119,43 @@ func runC15(c *core.Ctx) {
 			if path, reached := core.Reach(fn, first, spend, nil, nil); reached {
 				bad = "a second decrement of the node budget is reachable within one activation (the check sits in a loop or is repeated)"
 				wp = p.Witness(path)
+			}
+		}
+		// one visit per spend: after the user's callback ran, no further invocation of it is reachable within the
+		// activation without a new spend (a shortcut that visits a child directly - a leaf, a scalar block - instead of
+		// descending gives that visit away for free)
+		if bad == "" {
+			for _, ci := range core.CallsR(fn) {
+				if !isVisitCallback(fn, ci) {
+					continue
+				}
+				isOtherVisit := func(in ssa.Instruction) bool {
+					cj, ok := in.(ssa.CallInstruction)
+					return ok && isVisitCallback(fn, cj)
+				}
+				if path, reached := core.Reach(fn, ci, isOtherVisit, nil, spend); reached {
+					bad = "after the callback was invoked, another invocation of it is reachable within the same activation without the node budget having been spent again: a node is visited that no budget unit was charged for"
+					wp = p.Witness(path)
+					pos = ci.Pos()
+				}
+			}
+		}
+		// the other functions of the recursion (they load the next block, pick the selector for a child) spend nothing, so
+		// they must not visit either
+		if bad == "" {
+			for _, g := range tr.cycleOf(fn) {
+				if g == fn || len(spendsIn(g, "NodeBudget")) > 0 {
+					continue
+				}
+				for _, ci := range core.CallsR(g) {
+					if h := ci.Parent(); h != g && tr.recursive(h) {
+						continue
+					}
+					if isVisitCallback(g, ci) {
+						bad = "a function of the walk's recursion that does not spend the node budget (" + g.Name() + ") invokes the user's callback: that visit is not charged"
+						pos = ci.Pos()
+					}
+				}
 			}
 		}
 		// one spending site per recursion cycle
@@ -216,10 +263,10 @@ func runC15(c *core.Ctx) {
 	}
 
 	// ---------------------------------------------------------------- threshold
-	c.Rule("C15.threshold", "every function in which a recursive walk spends a budget counter takes the error branch exactly when the counter is <= 0 (i.e. below 1), stores the counter back decremented by exactly 1 on the other branch only, and the error branch cannot return success", 2)
+	c.Rule("C15.threshold", "every function of package traversal that spends a budget counter (the walks, and Focus / Get / FocusedTransform alike) tests the counter before charging the step, takes the error branch exactly when it is <= 0 (i.e. below 1), stores the counter back decremented by exactly 1 on the other branch only, and the error branch cannot return success", 2)
 	spenders := map[*ssa.Function]map[string]bool{}
 	for _, fn := range tr.fns {
-		if fn.Parent() != nil || !tr.recursive(fn) {
+		if fn.Parent() != nil {
 			continue
 		}
 		for _, field := range []string{"NodeBudget", "LinkBudget"} {
@@ -241,6 +288,7 @@ func runC15(c *core.Ctx) {
 			}
 			thresholdOK := false
 			var errEdge *core.Edge
+			var testIf ssa.Instruction
 			for _, b := range fn.Blocks {
 				if core.BlockIf(b) == nil {
 					continue
@@ -260,6 +308,7 @@ func runC15(c *core.Ctx) {
 					if ub, ok := r.UpperBoundConst(); ok && r.Op != token.EQL {
 						e2 := e
 						errEdge = &e2
+						testIf = core.BlockIf(b)
 						thresholdOK = constant.Compare(ub, token.EQL, constant.MakeInt64(0))
 					}
 				}
@@ -284,7 +333,12 @@ func runC15(c *core.Ctx) {
 					return ok && core.ResultNilness(ret, ei) != core.NonNil
 				}, nil)
 			}
-			c.Check(thresholdOK && decOK && errReturns, fmt.Sprintf("%s#threshold:%s", core.FuncKey(fn), field), p.Pos(fn.Pos()), "fails iff remaining < 1, otherwise decrements by 1", core.FuncKey(fn)+" does not fail exactly when the remaining "+field+" is <= 0 and decrement by exactly 1 otherwise (off-by-one in budget accounting)")
+			// the test looks at what is left BEFORE this step is charged: it is reachable without a decrement having run
+			testFirst := false
+			if testIf != nil {
+				_, testFirst = core.Reach(fn, nil, func(in ssa.Instruction) bool { return in == testIf }, nil, isSpendOf(field))
+			}
+			c.Check(thresholdOK && decOK && errReturns && testFirst, fmt.Sprintf("%s#threshold:%s", core.FuncKey(fn), field), p.Pos(fn.Pos()), "fails iff remaining < 1 before the step is charged, otherwise decrements by 1", core.FuncKey(fn)+" does not fail exactly when the remaining "+field+" is <= 0 and decrement by exactly 1 otherwise (off-by-one in budget accounting: the counter is compared after it was decremented, on the wrong branch, against another bound, or by another amount)")
 		}
 	}
 
